@@ -320,6 +320,7 @@ def run(ctx):
 
 def _account(ctx, verdicts):
     npos = nund = use = 0
+    failing = {}
     for vjs in verdicts.values():
         for vj in vjs:
             if vj["ev"] in ("Tensor", "Principal"):
@@ -328,8 +329,11 @@ def _account(ctx, verdicts):
                 use = max(use, vj.get("use", 0))
             for d in vj.get("drift", []):
                 ctx.note(f"model_drift {d} (first seen in case {vj['case']})")
+            for cl in list(vj.get("fails", [])) + list(vj.get("kf", [])):
+                failing[cl] = failing.get(cl, 0) + 1
     ctx.extra["positions"] = {"judged": npos, "undecidable_or_out_of_range": nund}
     ctx.extra["batchelor_tolerance_used_percent_max"] = use
+    ctx.extra["failing_clause_events"] = failing   # relayed from TLC's verdicts (all of them, not the first 40)
 
 
 def replay(ctx, payload):
